@@ -183,3 +183,99 @@ Proof.
     destruct (exec_spec cfg st1 G) as [[st2 ob2] ev2]. cbn [fst] in HG. subst st2.
     destruct (exec_spec cfg st1 S1) as [[st3 ob3] ev3]. cbn [fst snd] in *. rewrite H3. reflexivity.
 Qed.
+
+(* ------------------------------------------------------------------ audit follow-up *)
+From IV Require Import Proofs.FileStoreClock.
+
+(** [read_back_as_written] on the file-store model. *)
+Theorem read_back_as_written_file cfg ticks ops mb date tag size :
+  c_max cfg = 0%N ->
+  let k := count_of mb (counts (final_spec cfg spec_init ops)) in
+  let h := ops ++ [Add mb date tag size; Get mb (Kth k); Seen mb (Kth k); Get mb (Kth k)] in
+  file_fresh cfg (file_init ticks, []) h ->
+  nth_error (map fst (run_file cfg ticks h)) (S (length ops)) =
+    Some (OGet (Ok (k, {| m_date := date; m_tag := tag; m_size := size; m_seen := false |}))) /\
+  nth_error (map fst (run_file cfg ticks h)) (S (S (S (length ops)))) =
+    Some (OGet (Ok (k, {| m_date := date; m_tag := tag; m_size := size; m_seen := true |}))).
+Proof.
+  intros Hm k h Hf. unfold h in *. rewrite (file_refines_spec cfg ticks _ Hm Hf).
+  pose proof (read_back_as_written cfg ops mb date tag size (or_introl Hm)) as H. cbv zeta in H. fold k in H.
+  rewrite mem_refines_spec in H. exact H.
+Qed.
+
+(** Facts about the BACK-END models' own ids (they live inside the refinement relations): the ids
+    returned by the deliveries to one mailbox are pairwise distinct — after every history. *)
+Theorem ids_distinct_mem cfg ops mb : NoDup (iss_of mid mb (snd (final_mem cfg ops))).
+Proof.
+  destruct (mem_run_sim cfg ops spec_init mem_init [] RM_init SInv_init (RX_init cfg)) as [_ [H _]].
+  exact (rm_nd _ _ _ H mb).
+Qed.
+
+Theorem ids_distinct_file cfg ticks ops mb : c_max cfg = 0%N -> env_ok 0 ticks ops ->
+  NoDup (iss_of fid mb (snd (final_file cfg ticks ops))).
+Proof.
+  intros Hm He. pose proof (file_fresh_from_env cfg Hm ticks ops He) as Hf.
+  destruct (file_run_sim cfg Hm ops spec_init (file_init ticks) [] (RF_init ticks) SInv_init Hf) as [_ H].
+  unfold final_file.
+  match type of H with (let '(_, _) := ?t in _) => change (NoDup (iss_of fid mb (snd t))); revert H; destruct t as [s' iss']; intros H end.
+  exact (rf_nd _ _ _ H mb).
+Qed.
+
+(** [missing_is_not_exist] with the "latest" exclusion where it belongs (only GetMessage gives
+    "latest" a meaning). *)
+Theorem missing_is_not_exist' cfg st mb h :
+  find_h mb h (live st) = None ->
+  (h <> Latest -> snd (fst (exec_spec cfg st (Get mb h))) = OGet NotExist) /\
+  exec_spec cfg st (Seen mb h) = (st, OUnit NotExist, []) /\
+  exec_spec cfg st (Remove mb h) = (st, OUnit NotExist, []).
+Proof.
+  intros Hf. split; [intros Hl; apply (missing_is_not_exist cfg st mb h Hl Hf)|].
+  destruct h as [k| |]; simpl in *; rewrite ?Hf; auto.
+Qed.
+
+Lemma run_spec_last cfg ops o :
+  nth_error (map fst (run_spec cfg spec_init (ops ++ [o]))) (length ops) =
+  Some (snd (fst (exec_spec cfg (final_spec cfg spec_init ops) o))).
+Proof. apply run_spec_nth. Qed.
+
+(** On the back-end models, at the end of any history: a handle that names no live message
+    (removed, purged, evicted, never issued, or the bogus literal) is answered NotExist by
+    GetMessage, MarkSeen and RemoveMessage. *)
+Theorem missing_is_not_exist_mem cfg ops mb h :
+  find_h mb h (live (final_spec cfg spec_init ops)) = None ->
+  (h <> Latest -> nth_error (map fst (run_mem cfg (ops ++ [Get mb h]))) (length ops) = Some (OGet NotExist)) /\
+  nth_error (map fst (run_mem cfg (ops ++ [Seen mb h]))) (length ops) = Some (OUnit NotExist) /\
+  nth_error (map fst (run_mem cfg (ops ++ [Remove mb h]))) (length ops) = Some (OUnit NotExist).
+Proof.
+  intros Hf. destruct (missing_is_not_exist' cfg _ mb h Hf) as [H1 [H2 H3]]. rewrite !mem_refines_spec, !run_spec_last.
+  split; [intros Hl; rewrite (H1 Hl); reflexivity|]. rewrite H2, H3. split; reflexivity.
+Qed.
+
+Theorem missing_is_not_exist_file cfg ticks ops mb h :
+  c_max cfg = 0%N -> (forall o, env_ok 0 ticks (ops ++ [o])) ->
+  find_h mb h (live (final_spec cfg spec_init ops)) = None ->
+  (h <> Latest -> nth_error (map fst (run_file cfg ticks (ops ++ [Get mb h]))) (length ops) = Some (OGet NotExist)) /\
+  nth_error (map fst (run_file cfg ticks (ops ++ [Seen mb h]))) (length ops) = Some (OUnit NotExist) /\
+  nth_error (map fst (run_file cfg ticks (ops ++ [Remove mb h]))) (length ops) = Some (OUnit NotExist).
+Proof.
+  intros Hm He Hf. destruct (missing_is_not_exist' cfg _ mb h Hf) as [H1 [H2 H3]].
+  rewrite !(file_refines_spec_env cfg Hm) by apply He. rewrite !run_spec_last.
+  split; [intros Hl; rewrite (H1 Hl); reflexivity|]. rewrite H2, H3. split; reflexivity.
+Qed.
+
+(** The bogus literal is never a message, whatever happened before. *)
+Corollary bogus_is_not_exist_mem cfg ops mb :
+  nth_error (map fst (run_mem cfg (ops ++ [Get mb Bogus]))) (length ops) = Some (OGet NotExist).
+Proof. apply (missing_is_not_exist_mem cfg ops mb Bogus); [reflexivity | discriminate]. Qed.
+
+(** An instance of [backends_equivalent] evaluated by the kernel (the auditor's): two mailboxes,
+    cap 2, cap evictions, Seen/Get "latest", double remove, remove of the bogus literal, purge,
+    re-add after purge, two visits — 21 operations. *)
+Example backends_equivalent_instance :
+  let a := [97%N] in let b := [98%N] in
+  let ops := [Add a 1%Z 0%N 10%N; Add a 2%Z 1%N 20%N; Add a 3%Z 2%N 30%N; Lst a; Add b 4%Z 3%N 40%N;
+              Seen a Latest; Get a Latest; Remove a (Kth 1); Remove a (Kth 1); Remove b Bogus; Visit;
+              Purge a; Get a Latest; Add a 5%Z 4%N 50%N; Lst a; Lst b; Seen b (Kth 0); Get b (Kth 0);
+              Purge b; Visit; Lst a] in
+  length ops = 21 /\ run_mem {| c_cap := 2; c_max := 0 |} ops = run_file {| c_cap := 2; c_max := 0 |} [] ops.
+Proof. vm_compute. split; reflexivity. Qed.
